@@ -30,8 +30,23 @@ def _rem_constraints(zf, param_sym):
     return out
 
 
-def frame_of(ctx, cfg, path, param, _depth=0, cargs=None):
-    """(lo, hi, mods) of accepted lengths of `param` for function `path`, or None if the function has no accept site."""
+def _fn_const(fd, op, depth=0):
+    """the function a function-valued operand is (a function item, possibly reified into a pointer and copied), or None"""
+    if op is None or depth > 4:
+        return None
+    if op.get('k') == 'const':
+        return op.get('fn')
+    if op.get('k') not in ('copy', 'move') or op['pl'].get('p'):
+        return None
+    ds = [d for d in fd.defs.get(op['pl']['l'], []) if not d[2].get('dst', {}).get('p')]
+    if len(ds) == 1 and ds[0][0] == 'assign' and ds[0][2]['rv']['k'] in ('use', 'cast'):
+        return _fn_const(fd, ds[0][2]['rv']['op'], depth + 1)
+    return None
+
+
+def frame_of(ctx, cfg, path, param, _depth=0, cargs=None, fnbind=None):
+    """(lo, hi, mods) of accepted lengths of `param` for function `path`, or None if the function has no accept site.
+    fnbind: {parameter index: function} for function-valued parameters bound by the caller (`decode_with(parse_compressed, bytes)`)."""
     prog, eng, za = ctx.prog(cfg), ctx.eng(cfg), ctx.zone(cfg)
     body = prog.bodies[path]
     za.summary(path)
@@ -75,9 +90,27 @@ def frame_of(ctx, cfg, path, param, _depth=0, cargs=None):
                 calls.append((cb, t))
         for cb, t in calls:
             tgt = local_target(eng, t)
+            if tgt is None and t.get('callee') is None and t.get('callee_op') is not None and fnbind:
+                # a call through a function-valued parameter: the function the caller bound it to
+                co = t['callee_op']
+                if co.get('k') in ('copy', 'move') and not co['pl'].get('p'):
+                    r0 = fd.resolve_place(co['pl'])[0]
+                    l0 = co['pl']['l']
+                    for _ in range(4):
+                        if fd.is_param(l0):
+                            break
+                        ds0 = [d_ for d_ in fd.defs.get(l0, []) if not d_[2].get('dst', {}).get('p')]
+                        if len(ds0) == 1 and ds0[0][0] == 'assign' and ds0[0][2]['rv']['k'] == 'use' and ds0[0][2]['rv']['op']['k'] in ('copy', 'move'):
+                            l0 = ds0[0][2]['rv']['op']['pl']['l']
+                        else:
+                            break
+                    tgt = fnbind.get(l0) or fnbind.get(r0)
+                    if tgt not in prog.bodies:
+                        tgt = None
             if tgt is None or _depth > 6:
                 continue
             cbody = prog.bodies[tgt]
+            sub_bind = {ai_ + 1: f_ for ai_, a_ in enumerate(t['args']) for f_ in [_fn_const(fd, a_)] if f_ and f_ in prog.bodies}
             for ai, a in enumerate(t['args']):
                 if a['k'] not in ('copy', 'move'):
                     continue
@@ -93,7 +126,7 @@ def frame_of(ctx, cfg, path, param, _depth=0, cargs=None):
                 if not cbody.local_ty(ai + 1).startswith('&['):
                     continue
                 # only if the accept site depends on the callee's success (result consumed by `?` / returned)
-                sub = frame_of(ctx, cfg, tgt, pname, _depth + 1, cargs=t.get('cargs'))
+                sub = frame_of(ctx, cfg, tgt, pname, _depth + 1, cargs=t.get('cargs'), fnbind=sub_bind)
                 if sub is None:
                     continue
                 slo, shi, smods = sub
@@ -202,6 +235,17 @@ def rule_array_inputs_exact(ctx, cfg='prod-all', scope=('bbsplus::',)):
                     nm = cb.path.split('::')[-2] + '::' + cb.path.split('::')[-1]
                     cnt[nm] = cnt.get(nm, 0) + 1
                     n += 1
+                    # ... of the whole octet string: `x[..N].try_into()` converts a prefix exactly
+                    so = zf.slice_origin(zf.desc_place(src['pl']))
+                    if so is not None and so[0] is not None and so[0][0] == 'cont' and zf.fd.is_param(so[0][1]) and zf.desc_place(src['pl'])[0] != 'cont':
+                        whole = zf.len_of_desc(so[0])
+                        okw = whole is not None and zf.prove_le(whole, (None, int(N)), bi)
+                        if not okw:
+                            yield Ob('RF-E', '%s#array-input:%s[%d]' % (p, nm, cnt[nm]), False,
+                                     'the array handed to a function that takes `&[u8; N]` is the whole octet string (its length is N there), not a piece of a longer one',
+                                     '%s L%s' % (b.file(), t.get('line')), fact={'taken_by': 'a sub-slice converted exactly', 'N': N, 'length_of_the_source': tfmt(whole) if whole is not None else None},
+                                     expected='length == N')
+                            continue
                     yield Ob('RF-E', '%s#array-input:%s[%d]' % (p, nm, cnt[nm]), True, 'the octet string is turned into the array by a conversion that fails on any other length',
                              '%s L%s' % (b.file(), t.get('line')), fact={'conversion': cal.split('::')[-1], 'N': N}, expected='exact')
                     continue
